@@ -46,6 +46,8 @@ def gen_case(base, prop, i, mode='plain'):
         ops, mix = W.gen_ops(rng, w, n=n, mix='quiet')
         return {'prop': prop, 'world': w, 'ops': ops, 'mix': mix,
                 'mode': mode}
+    if prop == 'C10' and mode == 'short':
+        return short_case(base, i)
     if prop == 'C10':
         w = W.gen_world(rng, 'c10')
         ops, mix = W.gen_ops(rng, w)
@@ -61,6 +63,92 @@ def gen_case(base, prop, i, mode='plain'):
         return {'prop': prop, 'world': w, 'ops': ops, 'mix': mix,
                 'mode': mode}
     raise ValueError(prop)
+
+
+SHORT_LEN = 3
+SHORT_WORLDS = 6
+
+
+def short_alphabet(w, rng):
+    """A small alphabet for the systematic short-history mode: on the main
+    file and on two directory files, {write A, write B, empty, touch,
+    unlink}, plus an explicit check."""
+    paths = ['etc/' + W.main_name(w)]
+    for d in w['conf']['policy_dirs']:
+        if d == 'gone.d':
+            continue
+        rel = W.dir_rel(d)
+        for fn in ('a.yaml', 'B.yaml'):
+            if len(paths) < 3:
+                paths.append(rel + '/' + fn)
+    alpha = [{'op': 'check'}]
+    for p in paths:
+        a = W.gen_mapping(rng, w, kmax=2)
+        b = W.gen_mapping(rng, w, kmax=3)
+        for k, rules in (('write', a), ('replace', b), ('empty', {}),
+                         ('touch', None), ('unlink', None)):
+            op = {'op': k, 'path': p, 'dt': rng.choice(W.DTS)}
+            if rules is not None:
+                op['rules'] = rules
+                op['style'] = W.style_for(rng, p)
+            alpha.append(op)
+    return alpha
+
+
+def short_case(base, i):
+    """Systematic mode: run i is the i-th history of length <= SHORT_LEN
+    over the small alphabet of one of SHORT_WORLDS seeded worlds (a world
+    is revisited with the next history once all worlds had their turn)."""
+    wi = i % SHORT_WORLDS
+    k = i // SHORT_WORLDS
+    rng = core.rng_for(base, 'C10', wi, 'short-world')
+    while True:
+        w = W.gen_world(rng, 'c10')
+        if any(d != 'gone.d' for d in w['conf']['policy_dirs']):
+            break
+    alpha = short_alphabet(w, rng)
+    if wi % 2:
+        # odd worlds start with the alphabet's own "write" content on
+        # disk, so that unlink + write re-creates a byte-identical file
+        for op in alpha:
+            if op['op'] == 'write':
+                w['files'][op['path']] = {'rules': copy.deepcopy(
+                    op['rules']), 'style': op['style']}
+                parent = op['path'].rsplit('/', 1)[0]
+                if parent not in w['mkdirs']:
+                    w['mkdirs'].append(parent)
+    # every other history observes after each step instead of only at
+    # explicit checks (an enforcement call between any two edits)
+    eager = (k % 2 == 1)
+    k //= 2
+    n = len(alpha)
+    seq = []
+    # enumerate lengths 1..SHORT_LEN in order
+    for length in range(1, SHORT_LEN + 1):
+        if k < n ** length:
+            for _ in range(length):
+                seq.append(copy.deepcopy(alpha[k % n]))
+                k //= n
+            break
+        k -= n ** length
+    else:
+        # beyond the enumeration: a seeded length-4 history
+        r2 = core.rng_for(base, 'C10', i, 'short-tail')
+        seq = [copy.deepcopy(r2.choice(alpha)) for _ in range(SHORT_LEN + 1)]
+    if eager:
+        seq2 = []
+        for op in seq:
+            seq2.append(op)
+            if op['op'] != 'check':
+                seq2.append({'op': 'probe', 'i': k + len(seq2)})
+        seq = seq2
+    seq.append({'op': 'check'})
+    return {'prop': 'C10', 'world': w, 'ops': seq, 'mix': 'short',
+            'mode': 'short'}
+
+
+def short_total(w_alpha=16):
+    return SHORT_WORLDS * sum(w_alpha ** k for k in range(1, SHORT_LEN + 1))
 
 
 def add_races(rng, w, ops):
@@ -156,6 +244,9 @@ def execute(case, backend='sim', record=False):
         L = ds.make_enforcer()
         main0, main_constrained = ds.model_main()
         loaded = [False]
+        deleted_content = {}
+        last_content = {p: (f['rules'], f['style'])
+                        for p, f in w['files'].items()}
         c11_names = _c11_names(w) if prop == 'C11' else None
         reg = ds.model.reg
 
@@ -201,6 +292,15 @@ def execute(case, backend='sim', record=False):
                 mt = [ds.model.decide(eff, unc, n, r, s)
                       for (n, r, s) in probes]
                 if prop == 'C09':
+                    pf = w['conf']['pf']
+                    cnt.hit('row:%s/%s/%s/%s/exists=%s' % (
+                        pf['how'], pf['value'],
+                        'fallback' if pf['fallback'] else 'no-fallback',
+                        'ctor-arg' if pf['ctor'] else 'no-ctor-arg',
+                        ''.join('1' if ('etc/' + m_) in ds.content else '0'
+                                for m_ in W.MAIN_CANDIDATES)))
+                    if fm == 'policy.json' and not pf['ctor']:
+                        cnt.hit('probe:legacy_json_fallback_taken')
                     for p, b, m in zip(probes, ft, mt):
                         if m is None or not fm_con:
                             cnt.hit('unconstrained_skipped')
@@ -244,6 +344,17 @@ def execute(case, backend='sim', record=False):
             if not ds.apply(op):
                 return
             cnt.hit('edits')
+            if op.get('restores'):
+                cnt.hit('probe:earlier_content_restored')
+            if not existed and op['op'] != 'unlink' and \
+                    rel in deleted_content and \
+                    deleted_content[rel] == (op.get('rules'),
+                                             op.get('style')):
+                cnt.hit('probe:deleted_file_recreated_identical')
+            if op['op'] == 'unlink':
+                deleted_content[rel] = last_content.get(rel)
+            elif 'rules' in op:
+                last_content[rel] = (op['rules'], op['style'])
             if prop == 'C09':
                 return
             after = file_def()
@@ -419,8 +530,9 @@ PROPS = ('C09', 'C10', 'C11')
 
 TIERS = {
     'C09': {'quick': [('plain', 4000)], 'thorough': [('plain', 400000)]},
-    'C10': {'quick': [('plain', 2400), ('race', 600)],
-            'thorough': [('plain', 240000), ('race', 60000)]},
+    'C10': {'quick': [('plain', 2400), ('race', 600), ('short', 3264)],
+            'thorough': [('plain', 240000), ('race', 60000),
+                         ('short', 52416)]},
     'C11': {'quick': [('plain', 3000)], 'thorough': [('plain', 200000)]},
 }
 
@@ -556,8 +668,9 @@ EXPECTED_PROBES = {
     'C10': ['main_changed_with_dir_overrides', 'dir_changed',
             'override_removed_default_visible', 'main_created_after_start',
             'main_deleted_after_load', 'old_name_override_removed',
-            'readdir_order_not_sorted', 'edit_inside_enforce_call'],
+            'readdir_order_not_sorted', 'edit_inside_enforce_call',
+            'deleted_file_recreated_identical'],
     'C11': ['old_name_override_removed',
             'override_removed_default_visible'],
-    'C09': ['readdir_order_not_sorted'],
+    'C09': ['readdir_order_not_sorted', 'legacy_json_fallback_taken'],
 }
